@@ -145,7 +145,7 @@ PROPS["C10"] = dict(
 
 PROPS["C11"] = dict(
     model="Leak.v",
-    harness=[dict(name="main", n_quick=40, n_thorough=140, shards_quick=1, shards_thorough=3, coq=False, timeout=2400)],
+    harness=[dict(name="main", n_quick=66, n_thorough=140, shards_quick=1, shards_thorough=3, coq=False, timeout=2400)],
     trusted=_GOMINI_TRUSTED + ["'within bounded time' is modelled as 'within a bounded number of steps'; wall-clock behaviour is runtime: the harness measures goroutine counts 400ms and 550ms after the search ended, each case in its own process",
                               "the cancel model treats post-cancel channel operations as completing at once (select with ctx.Done), and assumes relation bodies have no call on their spine (guarded)"],
     assumptions=["goal evaluations handed to the concurrent combinators terminate"],
@@ -153,7 +153,7 @@ PROPS["C11"] = dict(
 )
 PROPS["C12"] = dict(
     model="Limiter.v",
-    harness=[dict(name="main", n_quick=24, n_thorough=100, shards_quick=1, shards_thorough=3, coq=False, timeout=2400)],
+    harness=[dict(name="main", n_quick=28, n_thorough=100, shards_quick=1, shards_thorough=3, coq=False, timeout=2400)],
     trusted=_GOMINI_TRUSTED + ["timing (the 10ms refill period against the search duration) is runtime: the harness bounds completion by 8s per search"],
     assumptions=["finite task trees whose writes are consumed"],
     explanation="permit/ticker LTS composed with a task tree whose parents hold a permit while waiting for children: non-blocking release never blocks, every schedule terminates with the unlimited multiset of answers; refutation for the blocking release; real searches under max in 1..100",
